@@ -6,6 +6,7 @@ copy, to look for false alarms.
   refactor_variants.py unparse   - re-emit every module with ast.unparse
                                    (drops comments, normalises formatting)
   refactor_variants.py both
+  refactor_variants.py params    - rename parameters that are never passed by keyword
   refactor_variants.py temps     - bind return values and comparison tests to
                                    temporaries first
 
@@ -154,12 +155,45 @@ class Temps(ast.NodeTransformer):
         return node
 
 
+class ParamRenamer(ast.NodeTransformer):
+    """Rename the parameters of every function (except self/cls, *args,
+    **kwargs, and names used as a keyword anywhere in the package) together
+    with their uses in the body.  Nested scopes are left alone when they
+    rebind the name."""
+
+    def __init__(self, keywords_used):
+        self.keywords_used = keywords_used
+
+    def visit_FunctionDef(self, node):
+        self.generic_visit(node)
+        if any(isinstance(x, (ast.FunctionDef, ast.AsyncFunctionDef, ast.ClassDef, ast.Lambda))
+               for x in ast.walk(node) if x is not node):
+            return node
+        comp_bound = set()
+        for sub in ast.walk(node):
+            if isinstance(sub, ast.comprehension):
+                comp_bound |= {n.id for n in ast.walk(sub.target) if isinstance(n, ast.Name)}
+        mapping = {}
+        for a in node.args.posonlyargs + node.args.args + node.args.kwonlyargs:
+            if a.arg in ('self', 'cls', '_') or a.arg in self.keywords_used or a.arg in comp_bound \
+                    or a.arg.startswith('_'):
+                continue
+            mapping[a.arg] = a.arg + '_p'
+            a.arg = a.arg + '_p'
+        for sub in ast.walk(node):
+            if isinstance(sub, ast.Name) and sub.id in mapping:
+                sub.id = mapping[sub.id]
+        return node
+
+
 def transform(path, mode):
     with open(path, encoding='utf-8') as handle:
         src = handle.read()
     tree = ast.parse(src)
     if 'rename' in mode:
         tree = Renamer(src, path).visit(tree)
+    if 'params' in mode:
+        tree = ParamRenamer(KEYWORDS_USED).visit(tree)
     if 'temps' in mode:
         tree = Temps().visit(tree)
         ast.fix_missing_locations(tree)
@@ -169,7 +203,16 @@ def transform(path, mode):
         handle.write(out)
 
 
+KEYWORDS_USED = set()
+
+
 def main():
+    for fname in os.listdir('/repo/propka'):
+        if fname.endswith('.py'):
+            with open(os.path.join('/repo/propka', fname), encoding='utf-8') as handle:
+                for n in ast.walk(ast.parse(handle.read())):
+                    if isinstance(n, ast.keyword) and n.arg:
+                        KEYWORDS_USED.add(n.arg)
     mode = sys.argv[1] if len(sys.argv) > 1 else 'both'
     if mode == 'both':
         mode = 'rename+unparse'
